@@ -64,5 +64,13 @@ check("C08", "exploration",
       "identically before and after; parameter-assigning functions are called with foldable constant arguments.",
       "Trusted: equality of first and later executions as oracle (no absolute expectation).", 
       "history oracle over repeated evaluations of the same code, under ASan", "DESIGN.md section 5 C08")
+check("C04", "exploration",
+      "2.5k/200k programs in which one body is evaluated repeatedly under changing scope layouts (eval()-injected variables, conditional "
+      "declarations, recursion, lambdas called free/bound/as attribute, method vs free calls; all permutations of <=3 calls) plus a layout-stable "
+      "control group are run three times: lookup hints in normal use, hints bypassed through hook H1 (every identifier resolved by name) and in "
+      "audit mode (each lookup resolved both ways, counted per code path). Normal and bypass must agree; the two recorded residual shapes are "
+      "produced only by dedicated probe programs and attributed by the audit hook's classification.",
+      "Trusted: hook H1 (bypass = the engine's own by-name search; audit never changes the returned value). Known-finding attribution is per code path + circumstance.",
+      "differential execution (cache on vs forced off) + online audit hook comparing cached and by-name resolution, under ASan", "DESIGN.md section 5 C04")
 for _p in ["C%02d" % i for i in range(2, 21) if "C%02d" % i not in CHECKS]:
     NA[_p] = "check not implemented yet in this revision (work in progress, see DESIGN.md); nothing is claimed"
